@@ -26,16 +26,23 @@ def _cache_options(c):
     return CacheOptions(True, c["ib"], c["bb"], c["ways"], c["kind"], c["strat"], c["pen"])
 
 
+class SutConstructionError(Exception):
+    """RiscvSimulation(...) raised for a legal configuration."""
+
+
 def make_sim(trace, mode, hz=True, dc=None, ic=None, prog=None):
     import fixedint
     from architecture_simulator.simulation.riscv_simulation import RiscvSimulation
 
-    sim = RiscvSimulation(
-        mode=mode,
-        detect_data_hazards=hz,
-        data_cache=_cache_options(dc),
-        instruction_cache=_cache_options(ic),
-    )
+    try:
+        sim = RiscvSimulation(
+            mode=mode,
+            detect_data_hazards=hz,
+            data_cache=_cache_options(dc),
+            instruction_cache=_cache_options(ic),
+        )
+    except Exception as e:  # noqa: BLE001
+        raise SutConstructionError(f"{type(e).__name__}: {e} (mode={mode}, dc={dc}, ic={ic})") from e
     # the assembler is stubbed, but the rest of load_program() is not: reset both memories first
     # (riscv_simulation.py:106-116), then place the instructions as the parser's last step does
     sim.state.memory.reset()
